@@ -283,6 +283,45 @@ func VF_C02_SetOperand(n, m int) {
 	vf.Reach("end")
 }
 
+// VF_C02_FromSet: kind 0: a set built from another set that is ordered by a different collator is ordered by
+// its own (natural) collator and finds every member; kind 1: the array view of a set is a copy.
+func VF_C02_FromSet(n, kind int) {
+	xs := vf.Ints("xs", n)
+	vf.Budget(8 * listBudget)
+	switch kind {
+	case 0:
+		src := ufSet(xs)
+		dst := col.Set[int](nil).MakeFromSequence(src)
+		got := dst.AsArray()
+		asc := len(got) == n
+		for i := 0; i+1 < len(got); i++ {
+			asc = vf.And(asc, got[i] < got[i+1])
+		}
+		vf.Assert("set-from-set-ordered-by-its-own-collator", asc)
+		ok := true
+		for _, x := range xs {
+			ok = vf.And(ok, vf.And(member(got, x), dst.ContainsValue(x)))
+		}
+		vf.Assert("set-from-set-same-members", ok)
+	case 1:
+		s := col.Set[int](nil).MakeFromArray(xs)
+		view := s.AsArray()
+		snap := append([]int(nil), view...)
+		w := vf.Int("w")
+		for i := range view {
+			view[i] = w
+		}
+		vf.Assert("set-unaffected-by-writes-to-array-view", eqInts(s.AsArray(), snap))
+		ok := true
+		for _, x := range xs {
+			ok = vf.And(ok, s.ContainsValue(x))
+		}
+		vf.Assert("members-still-found", ok)
+	}
+	vf.BudgetReset()
+	vf.Reach("end")
+}
+
 // ---- composite elements: sets of []int under the default collator ----
 
 var c02slices = [][]int{{}, {1}, {1, 2}, {1, 2, 3}, {2}, {2, 0}, {0, 5}}
